@@ -532,8 +532,8 @@ Qed.
 
 (* ---------- bulk insert ---------- *)
 (* the per-child loop of innerNode.updateOnInsert, as a top-level function (same body) *)
-Fixpoint go_ins (maxn : N) (cs : list node) (kvts : list kvt) (l : list node) (i : N)
-  : option (list node * N) :=
+Definition go_ins (maxn : N) (cs : list node) (kvts : list kvt) : list node -> N -> option (list node * N) :=
+  fix go (l : list node) (i : N) {struct l} : option (list node * N) :=
   match l with
   | [] => Some ([], 0)
   | c :: r =>
@@ -544,11 +544,28 @@ Fixpoint go_ins (maxn : N) (cs : list node) (kvts : list kvt) (l : list node) (i
                          | None => None
                          | Some ns => Some (ns, nodes_max_ts ns)
                          end
-             end), go_ins maxn cs kvts r (i + 1) with
+             end), go r (i + 1) with
       | Some (ns, t1), Some (rest, t2) => Some (ns ++ rest, N.max t1 t2)
       | _, _ => None
       end
   end.
+
+Lemma go_ins_nil maxn cs kvts i : go_ins maxn cs kvts [] i = Some ([], 0).
+Proof. reflexivity. Qed.
+Lemma go_ins_cons maxn cs kvts c r i :
+  go_ins maxn cs kvts (c :: r) i =
+  let g := filter (fun e => inner_index_of cs (kvt_key e) =? i) kvts in
+  match (match g with
+         | [] => Some ([c], 0)
+         | _ :: _ => match insert maxn c g with
+                     | None => None
+                     | Some ns => Some (ns, nodes_max_ts ns)
+                     end
+         end), go_ins maxn cs kvts r (i + 1) with
+  | Some (ns, t1), Some (rest, t2) => Some (ns ++ rest, N.max t1 t2)
+  | _, _ => None
+  end.
+Proof. reflexivity. Qed.
 
 Lemma insert_inner_eq maxn ts cs kvts :
   insert maxn (Inner ts cs) kvts =
@@ -650,23 +667,23 @@ Section InsertProof.
     end.
   Proof.
     intros Hk. induction l as [|c r IH]; intros i Hne Hidx HP Hs Hok; [congruence|].
-    set (f := fun e => inner_index_of cs (kvt_key e)) in *.
     apply Forall_cons_iff in HP as [[Wc Stc] HPr].
     rewrite flat_cons in Hs, Hok. rewrite lkeys_app in Hs.
     apply ssorted_app in Hs as (S1 & S2 & S3). apply Forall_app in Hok as [Ok1 Ok2].
-    set (g := filter (fun e => f e =? i) kvts).
+    set (g := filter (fun e => inner_index_of cs (kvt_key e) =? i) kvts).
     pose proof (child_part c g Wc Stc Ok1 (filter_sub _ _ _ Hk)) as CP.
-    cbn [go_ins]. fold f. fold g.
+    rewrite go_ins_cons. cbv zeta. fold g.
     destruct r as [|c2 r'].
     - (* last child *)
-      cbn [go_ins].
-      assert (EK : filter (fun e => i <=? f e) kvts = g).
+      rewrite go_ins_nil.
+      assert (EK : filter (fun e => i <=? inner_index_of cs (kvt_key e)) kvts = g).
       { unfold g. apply filter_ext_in. intros e He.
-        destruct (N.leb_spec i (f e)) as [L | L].
-        - pose proof (Hidx e He L) as E. simpl in E. fold f in E. symmetry. apply N.eqb_eq. lia.
+        destruct (N.leb_spec i (inner_index_of cs (kvt_key e))) as [L | L].
+        - pose proof (Hidx e He L) as E. simpl in E.  symmetry. apply N.eqb_eq. lia.
         - symmetry. apply N.eqb_neq. lia. }
-      rewrite EK. unfold flat at 1; cbn [flat_map]. rewrite app_nil_r.
-      destruct (match g with [] => Some ([c], 0) | _ :: _ => _ end) as [[ns t1]|]; auto.
+      assert (Ef : flat [c] = flatten c) by (unfold flat; simpl; apply app_nil_r).
+      rewrite EK, Ef.
+      destruct (match g with [] => Some ([c], 0) | _ :: _ => _ end) as [[ns t1]|]; [|exact CP].
       rewrite app_nil_r. exact CP.
     - (* a further child c2: the boundary is its min key *)
       set (s := min_key c2).
@@ -677,27 +694,27 @@ Section InsertProof.
         rewrite flat_cons, F2. simpl. left. symmetry. exact M2. }
       assert (Hright : forall y, In y (keys (absl (flat (c2 :: r')))) -> kle s y).
       { intros y Hy. rewrite keys_absl in Hy. rewrite flat_cons, F2 in Hy, S2.
-        simpl in Hy. destruct Hy as [<- | Hy].
+        unfold lkeys in Hy, S2. cbn [map app] in Hy, S2. destruct Hy as [<- | Hy].
         - unfold s. rewrite M2. apply kle_refl.
-        - apply klt_kle. unfold s. rewrite M2. eapply ssorted_head_lt; eauto. }
-      assert (Hcase : forall e, In e kvts -> i <= f e ->
-                (ble s (kvt_key e) = true /\ f e = i + 1 + N.of_nat (idx (c2 :: r') (kvt_key e))) \/
-                (ble s (kvt_key e) = false /\ f e = i)).
-      { intros e He L. pose proof (Hidx e He L) as E. fold f in E. rewrite idx_cons2 in E. fold s in E.
+        - apply klt_kle. unfold s. rewrite M2. exact (ssorted_head_lt _ _ _ S2 Hy). }
+      assert (Hcase : forall e, In e kvts -> i <= inner_index_of cs (kvt_key e) ->
+                (ble s (kvt_key e) = true /\ inner_index_of cs (kvt_key e) = i + 1 + N.of_nat (idx (c2 :: r') (kvt_key e))) \/
+                (ble s (kvt_key e) = false /\ inner_index_of cs (kvt_key e) = i)).
+      { intros e He L. pose proof (Hidx e He L) as E.  rewrite idx_cons2 in E. fold s in E.
         destruct (ble s (kvt_key e)); [left | right]; split; auto; lia. }
-      assert (EL : filter (below s) (filter (fun e => i <=? f e) kvts) = g).
+      assert (EL : filter (below s) (filter (fun e => i <=? inner_index_of cs (kvt_key e)) kvts) = g).
       { rewrite filter_filter. unfold g. apply filter_ext_in. intros e He. unfold below.
         rewrite blt_negb_ble.
-        destruct (N.leb_spec i (f e)) as [L | L]; cbn [andb].
+        destruct (N.leb_spec i (inner_index_of cs (kvt_key e))) as [L | L]; cbn [andb].
         - destruct (Hcase e He L) as [[B E] | [B E]]; rewrite B; cbn [negb]; symmetry.
           + apply N.eqb_neq. lia.
           + apply N.eqb_eq. lia.
         - symmetry. apply N.eqb_neq. lia. }
-      assert (ER : filter (fun e => negb (below s e)) (filter (fun e => i <=? f e) kvts)
-                   = filter (fun e => i + 1 <=? f e) kvts).
+      assert (ER : filter (fun e => negb (below s e)) (filter (fun e => i <=? inner_index_of cs (kvt_key e)) kvts)
+                   = filter (fun e => i + 1 <=? inner_index_of cs (kvt_key e)) kvts).
       { rewrite filter_filter. apply filter_ext_in. intros e He. unfold below.
         rewrite blt_negb_ble, negb_involutive.
-        destruct (N.leb_spec i (f e)) as [L | L]; cbn [andb].
+        destruct (N.leb_spec i (inner_index_of cs (kvt_key e))) as [L | L]; cbn [andb].
         - destruct (Hcase e He L) as [[B E] | [B E]]; rewrite B; symmetry.
           + apply N.leb_le. lia.
           + apply N.leb_gt. lia.
@@ -706,9 +723,9 @@ Section InsertProof.
       rewrite (mv_insert_split s _ (abs c) (absl (flat (c2 :: r'))) Hleft Hright).
       rewrite EL, ER.
       specialize (IH (i + 1) ltac:(discriminate)).
-      assert (Hidx' : forall e, In e kvts -> i + 1 <= f e -> f e = i + 1 + N.of_nat (idx (c2 :: r') (kvt_key e))).
+      assert (Hidx' : forall e, In e kvts -> i + 1 <= inner_index_of cs (kvt_key e) -> inner_index_of cs (kvt_key e) = i + 1 + N.of_nat (idx (c2 :: r') (kvt_key e))).
       { intros e He L. destruct (Hcase e He ltac:(lia)) as [[B E] | [B E]]; [exact E | lia]. }
-      specialize (IH Hidx' (Forall_cons _ (conj Wc2 Stc2) HPr') S2 Ok2). fold f in IH.
+      specialize (IH Hidx' (Forall_cons _ (conj Wc2 Stc2) HPr') S2 Ok2). 
       destruct (match g with [] => Some ([c], 0) | _ :: _ => _ end) as [[ns t1]|].
       + destruct CP as (P1 & P2 & P3 & P4). rewrite P1.
         destruct (go_ins maxn cs kvts (c2 :: r') (i + 1)) as [[rest t2]|].
@@ -755,3 +772,98 @@ Section InsertProof.
       rewrite A1. repeat split; auto.
   Qed.
 End InsertProof.
+
+(* ---------- root growth ---------- *)
+Lemma split_inner_length maxn maxkey maxval : cfg_sizes maxn maxkey maxval ->
+  forall fuel ts cs, (length cs <= fuel)%nat -> cs <> [] -> Forall (wfn maxn) cs ->
+  Forall (lv_ok maxkey maxval) (flat cs) ->
+  (length (split_inner fuel maxn ts cs) <= Nat.max 1 (length cs - 1))%nat.
+Proof.
+  intros C. apply cfg_sizes_inv in C as [C1 C2].
+  induction fuel as [|f IH]; intros ts cs Hf Hne Hw Hok.
+  - destruct cs; [congruence | simpl in Hf; lia].
+  - cbn [split_inner]. destruct (N.leb_spec (inner_size cs) maxn) as [L | L]; [cbn [length]; lia|].
+    assert (H2 : (3 <= length cs)%nat).
+    { destruct cs as [|c1 [|c2 [|c3 cs]]]; [congruence | | | simpl; lia]; exfalso.
+      - inversion Hw; subst.
+        pose proof (ref_size_bound maxn maxkey maxval c1 H1 (Forall_flat_in _ _ Hok (or_introl eq_refl))).
+        rewrite inner_size_cons in L. simpl in L. lia.
+      - inversion Hw as [|? ? W1 W2]; subst. inversion W2 as [|? ? W3 W4]; subst.
+        pose proof (ref_size_bound maxn maxkey maxval c1 W1 (Forall_flat_in _ _ Hok (or_introl eq_refl))).
+        pose proof (ref_size_bound maxn maxkey maxval c2 W3
+                      (Forall_flat_in _ _ Hok (or_intror (or_introl eq_refl)))).
+        rewrite !inner_size_cons in L. simpl in L. lia. }
+    pose proof (split_index_range (N.of_nat (length cs)) ltac:(lia)) as [R1 R2].
+    assert (R3 : 2 <= split_index (N.of_nat (length cs))).
+    { unfold split_index. destruct (N.eqb_spec (N.of_nat (length cs) mod 2) 0); lia. }
+    set (i := N.to_nat (split_index (N.of_nat (length cs)))) in *.
+    assert (Hi : (2 <= i <= length cs - 1)%nat) by (unfold i; lia).
+    pose proof (flat_firstn_skipn i cs) as FS.
+    assert (Hok' : Forall (lv_ok maxkey maxval) (flat (firstn i cs)) /\
+                   Forall (lv_ok maxkey maxval) (flat (skipn i cs))).
+    { rewrite <- FS in Hok. apply Forall_app in Hok. exact Hok. }
+    rewrite app_length.
+    pose proof (IH (nodes_max_ts (firstn i cs)) (firstn i cs)) as A.
+    pose proof (IH (nodes_max_ts (skipn i cs)) (skipn i cs)) as B.
+    rewrite firstn_length in A. rewrite skipn_length in B.
+    assert (A' : (length (split_inner f maxn (nodes_max_ts (firstn i cs)) (firstn i cs))
+                  <= Nat.max 1 (Nat.min i (length cs) - 1))%nat).
+    { apply A; [lia | | apply Forall_firstn; auto | tauto].
+      intros E. apply (f_equal (@length node)) in E. rewrite firstn_length in E. simpl in E. lia. }
+    assert (B' : (length (split_inner f maxn (nodes_max_ts (skipn i cs)) (skipn i cs))
+                  <= Nat.max 1 (length cs - i - 1))%nat).
+    { apply B; [lia | | apply Forall_skipn; auto | tauto].
+      intros E. apply (f_equal (@length node)) in E. rewrite skipn_length in E. simpl in E. lia. }
+    lia.
+Qed.
+
+Lemma grow_spec maxn maxkey maxval newTs : cfg_sizes maxn maxkey maxval ->
+  forall fuel nodes, (length nodes <= fuel)%nat -> nodes <> [] -> Forall (wfn maxn) nodes ->
+  Forall (lv_ok maxkey maxval) (flat nodes) ->
+  exists r, grow fuel maxn newTs nodes = Some r /\ flatten r = flat nodes /\ wfn maxn r.
+Proof.
+  intros C. induction fuel as [|f IH]; intros nodes Hf Hne Hw Hok.
+  - destruct nodes; [congruence | simpl in Hf; lia].
+  - destruct nodes as [|r0 [|r1 rest]]; [congruence | |].
+    + exists r0. inversion Hw; subst. repeat split; auto. unfold flat; simpl. rewrite app_nil_r. reflexivity.
+    + cbn [grow].
+      set (nodes := r0 :: r1 :: rest) in *.
+      destruct (split_inner_spec maxn maxkey maxval C (length nodes) newTs nodes) as (A1 & A2 & A3); auto.
+      pose proof (split_inner_length maxn maxkey maxval C (length nodes) newTs nodes
+                    (Nat.le_refl _) Hne Hw Hok) as L.
+      destruct (IH (split_inner (length nodes) maxn newTs nodes)) as (r & G1 & G2 & G3); auto.
+      * unfold nodes in *. simpl length in *. lia.
+      * rewrite A1. exact Hok.
+      * exists r. rewrite G1, G2, A1. auto.
+Qed.
+
+(* bulkInsert at the tree level: node.insert followed by the root-growth loop *)
+Definition tree_insert (maxn : N) (root : node) (kvts : list kvt) : option node :=
+  match insert maxn root kvts with
+  | None => None
+  | Some ns => grow (length ns) maxn (kvts_max_ts kvts) ns
+  end.
+
+Definition root_ok (maxn : N) (n : node) : Prop := wfn maxn n \/ exists t, n = Leaf t [].
+
+Theorem tree_insert_refines maxn maxkey maxval root kvts :
+  cfg_sizes maxn maxkey maxval -> root_ok maxn root -> tree_ok maxn maxkey maxval root ->
+  kvts <> [] -> Forall (kvt_ok maxkey maxval) kvts ->
+  match tree_insert maxn root kvts with
+  | None => mv_insert kvts (abs root) = None
+  | Some r => mv_insert kvts (abs root) = Some (abs r) /\ wfn maxn r /\ tree_ok maxn maxkey maxval r
+  end.
+Proof.
+  intros C R T Hne Hk. unfold tree_insert.
+  pose proof (insert_spec maxn maxkey maxval C root R T kvts Hne Hk) as P. unfold ins_post in P.
+  destruct (insert maxn root kvts) as [ns|]; auto.
+  destruct P as (P1 & P2 & P3 & P4).
+  destruct (grow_spec maxn maxkey maxval (kvts_max_ts kvts) C (length ns) ns) as (r & G1 & G2 & G3); auto.
+  rewrite G1.
+  assert (Ea : abs r = absl (flat ns)) by (rewrite abs_eq, G2; reflexivity).
+  rewrite Ea. split; [exact P1|]. split; [exact G3|]. split.
+  - assert (W : mv_wf (abs root)) by (unfold mv_wf; rewrite abs_eq, keys_absl; apply T).
+    pose proof (mv_insert_wf _ _ _ W P1) as W'. unfold mv_wf in W'.
+    rewrite keys_absl in W'. rewrite G2. exact W'.
+  - rewrite G2. exact P4.
+Qed.
